@@ -63,6 +63,16 @@ pub fn check_trace(r: &dyn Retracer, t: &TraceAst, st: &mut Stats) -> Check {
     if t.depth() >= 3 {
         st.class("cause chain depth >= 2");
     }
+    {
+        let mut cur = t.cause.as_deref();
+        while let Some(c) = cur {
+            if c.exception.is_none() && c.frames.is_empty() {
+                st.class("cause level without throwable and without frames");
+                break;
+            }
+            cur = c.cause.as_deref();
+        }
+    }
     if got.depth() != t.depth() {
         return Err(Fail::new("typed-depth", format!("{}: cause-chain depth {} became {}", r.name(), t.depth(), got.depth())).with(json!({"impl": r.name(), "trace": t})));
     }
@@ -103,7 +113,9 @@ pub fn check_case(case: &MapCase, st: &mut Stats) -> Check {
     let u = Universe::from_ast(&case.file, false);
     let bytes = case.bytes();
     let pool = name_pool_for(&case.file, &u);
-    let traces: Vec<TraceAst> = sample_n(&trace::trace(&pool, 6, 4), case.key ^ 0xc08, 30);
+    let mut traces: Vec<TraceAst> = sample_n(&trace::trace(&pool, 6, 4), case.key ^ 0xc08, 24);
+    // traces as the parser produces them: cause levels without throwable and / or without frames
+    traces.extend(sample_n(&trace::parsed_like_trace(&pool, 3, 4), case.key ^ 0xc09, 8));
     let m = mapper(&bytes, false)?;
     let buf = write_cache(&bytes)?;
     let cache = parse_cache(&buf)?;
